@@ -43,6 +43,10 @@ func init() {
 			c.guard("SEQ.GEN", s.ruleGenHist)
 			c.guard("SEQ.START", func() { s.ruleStart() })
 			c.guard("SEQ.TAKE", s.ruleSuspend)
+			// "Result returns the generator's return value": the value of a Return signal reaches Start's final
+			// continuation unchanged through every combinator it crosses
+			c.guard("SEQ.ROLE", func() { s.ruleRole() })
+			c.guard("SEQ.COMBINE", s.ruleCombine)
 		},
 	})
 }
@@ -87,8 +91,16 @@ func init() {
 			c.guard("OPT.ETA", r.ruleOptEta)
 			c.guard("RW.TMPL.RETURN", r.rulePass0)
 			c.guard("RW.TMPL.FOR", r.ruleTmplFor)
+			// a statement that is dropped, or that runs before the yields preceding it, cannot raise its panic in
+			// the advance the source raises it in
+			c.guard("RW.NOLOSS", r.ruleCover)
+			c.guard("RW.CLOSE", r.ruleCloseContract)
 			c.keep(func(o Obligation) bool {
 				switch o.Rule {
+				case "RW.DISPATCH", "RW.FIELDCOV", "RW.DEEPVISIT", "RW.BLOCKSTATE":
+					return false
+				case "RW.CLOSE":
+					return strings.HasPrefix(o.Construct, "combine decision between statements")
 				case "RW.TMPL.FOR":
 					return strings.Contains(o.Construct, "wrapped in a thunk")
 				case "RW.TMPL.HOIST":
@@ -133,10 +145,16 @@ func init() {
 			r14 := newRwRT(c)
 			c.guard("OPT.WHITELIST", func() { r14.ruleOptWhitelist(s) })
 			c.guard("OPT.RULES", r14.ruleOptRules)
+			// an advance meant for one iterator must reach that iterator: `for a.MoveNext() { …; a, b = b, a }`
+			// reads the variable at every round (a method value would keep advancing the first one)
+			c.guard("OPT.ETA", r14.ruleOptEta)
 			// of the loop tables only the independence of two runs of one Seq value belongs here
 			c.keep(func(o Obligation) bool {
 				if o.Rule == "SEQ.FOR" {
 					return strings.Contains(o.Construct, "second run")
+				}
+				if o.Rule == "OPT.ETA" {
+					return strings.HasPrefix(o.Construct, "callee is a method value") || o.Construct == "pattern shape" || o.Construct == "liveness"
 				}
 				return o.Rule != "SEQ.ROLE" && o.Rule != "SEQ.LAZY"
 			})
